@@ -183,7 +183,10 @@ class Ctx(object):
             if not r.ok or not done or done[-1][1] != len(shards[k]):
                 raise Machinery("trace validation %s shard %d not accepted (rc=%s, consumed=%s of %d)\n%s"
                                 % (module, k, r.rc, done[-1][1] if done else None, len(shards[k]), r.tail(40)))
-            for v in r.tagged("VERDICT"):
+            vs = r.tagged("VERDICT")
+            if len(vs) != r.out.count('"VERDICT"'):
+                raise Machinery("trace validation %s shard %d: %d VERDICT lines printed, %d parsed" % (module, k, r.out.count('"VERDICT"'), len(vs)))
+            for v in vs:
                 verdicts.append((v[1], set(v[2]), set(v[3]) if len(v) > 3 else set(), v[4:] if len(v) > 4 else ()))
             for v in r.tagged("DRIFT"):
                 self.drift += 1
